@@ -142,6 +142,13 @@ def sha(path):
 
 def main():
     if len(sys.argv) >= 3 and sys.argv[1] == '--replay':
+        spec = json.load(open(sys.argv[2]))
+        if 'runner' in spec:
+            # a bounded stand-in's finding: re-run the same enumeration (same seed and tier) on the current tree
+            from pyvc import bounded as BD
+            res = BD.run(spec['runner'], spec['property'], spec.get('tier', 'quick'), int(spec.get('seed', 0)), repo_path())
+            print(json.dumps(res['violations'], indent=1))
+            sys.exit(1 if res['violations'] else 0)
         rc, out = replay_native(sys.argv[2])
         print(out)
         sys.exit(rc)
